@@ -131,8 +131,9 @@ package vm
 //@   verify
 //@   safety [C03]
 //@   requires recv: s != nil && slot != nil
-//@   ensures view [C03 C11]: result == s.index[account][*slot][offset][typeId]
+//@   ensures view [C03 C10 C11]: result == s.index[account][*slot][offset][typeId]
 //@   ensures work-bounded [C20]: work <= old(work)
+//@   modifies nothing
 //@ end
 
 // ---------------------------------------------------------------------------
@@ -189,6 +190,7 @@ package vm
 //@   verify
 //@   safety [C03]
 //@   requires recv: s != nil
+//@   modifies nothing
 //@ end
 
 //@ func (*vm.StateChanges).FindKeyIndices
@@ -196,18 +198,21 @@ package vm
 //@   safety [C03]
 //@   requires recv: s != nil
 //@   loop 0 invariant cursor-nonnil: cursor != nil
+//@   modifies nothing
 //@ end
 
 //@ func (*vm.StateChanges).Variable
 //@   verify
 //@   safety [C03]
 //@   requires recv: s != nil
+//@   modifies nothing
 //@ end
 
 //@ func (*vm.StateChanges).Slot
 //@   verify
 //@   safety [C03]
 //@   requires recv: s != nil
+//@   modifies nothing
 //@ end
 
 //@ func (*vm.StateChanges).IndicesOfChanges
@@ -226,6 +231,7 @@ package vm
 //@   verify
 //@   safety [C03]
 //@   requires recv: c != nil
+//@   modifies nothing
 //@ end
 
 // ---------------------------------------------------------------------------
@@ -279,18 +285,21 @@ package vm
 //@   verify
 //@   safety [C03]
 //@   requires recv: c != nil
+//@   modifies nothing
 //@ end
 
 //@ func (*vm.CallTree).FindCall
 //@   verify
 //@   safety [C03]
 //@   requires recv: c != nil
+//@   modifies nothing
 //@ end
 
 //@ func (*vm.CallTree).ChildrenOf
 //@   verify
 //@   safety [C03]
 //@   requires recv: c != nil
+//@   modifies nothing
 //@ end
 
 //@ func (*vm.Tracer).CurrentCallIndex(t) (idx)
@@ -299,6 +308,7 @@ package vm
 //@   requires recv: t != nil
 //@   ensures innermost-open-call [C10 C13]: (t.callTree.current != nil ==> idx == t.callTree.current.Index) && (t.callTree.current == nil ==> idx == 0)
 //@   ensures work-bounded [C20]: work <= old(work)
+//@   modifies nothing
 //@ end
 
 // C13: the balance journal brackets the transfer: read(from), read(to), transfer exactly once with the same
@@ -360,7 +370,6 @@ package vm
 //@ func vm.NewRootKey
 //@   verify
 //@   safety [C03]
-//@   ensures work-bounded [C20]: work <= old(work)
 //@ end
 
 //@ func vm.NewBranchKey
